@@ -623,6 +623,13 @@ func NewRaft(conf *Config, fsm FSM, logs LogStore, stable StableStore, snaps Sna
 			return nil, err
 		}
 	}
+	// With a restored commit index (RestoreCommittedLogs) the newest
+	// configuration entry may already be committed. The scan above leaves
+	// the committed configuration one entry behind, which is only right while
+	// the commit index is unknown.
+	if r.configurations.latestIndex <= r.getCommitIndex() {
+		r.setCommittedConfiguration(r.configurations.latest, r.configurations.latestIndex)
+	}
 	r.logger.Info("initial configuration",
 		"index", r.configurations.latestIndex,
 		"servers", hclog.Fmt("%+v", r.configurations.latest.Servers))
